@@ -290,7 +290,7 @@ class DecorateWithChecker(FnSpec):
             out.append(("closure.positional_names_and_positional_only_%d" % i, fct))
         for a in TRACKED_DICT[:3]:
             l = attr(st, w, a)
-            out.append(("fresh_empty_" + a, z3.And(st.get("has:" + a, w), l >= c.pre.ctr, z3.Length(lst(st, l)) == 0, l != w)))
+            out.append(("fresh_empty_" + a, z3.And(st.get("has:" + a, w), l >= c.pre.ctr, z3.Length(lst(st, l)) == 0, l != w, TY(l) == T_LIST)))
         out.append(("three_distinct_lists", z3.Distinct(*[attr(st, w, a) for a in TRACKED_DICT[:3]])))
         for a in COPIED:
             out.append(("copies_" + a, attr(st, w, a) == attr(c.pre, f, a)))
@@ -306,4 +306,4 @@ class DecorateWithChecker(FnSpec):
                                                      z3.And(z3.Not(sr), self.reserved(c), builtin_exc(e.t, "TypeError", c.pre.ctr))))]
 
 
-DWC = DecorateWithChecker()
+DWC = REG.register(DecorateWithChecker())
